@@ -293,7 +293,9 @@ func (r *SexpArray) Type() *RegisteredType {
 			r.typing = true
 			ty := r.Val[0].Type()
 			r.typing = false
-			if ty != nil {
+			// (a hash that is not a record of a Go struct has a type
+			// without a Go type, and there is no slice type to derive)
+			if ty != nil && ty.TypeCache != nil {
 				r.Typ = GoStructRegistry.GetOrCreateSliceType(ty)
 			}
 		} else {
